@@ -211,8 +211,10 @@ Print Assumptions C08_ssa_unguarded_callback_panics.
    never return Panic; the content of each equation is that the guard implies the access is in range / non-nil / non-zero /
    of the asserted type.  The driver runs the checked functions.  Model/StlCW.v does the same for the writer's two-level
    nil tests on the cue list (Item.InlineStyle / STLJustification / STLPosition, LineItem.InlineStyle / *bool).
-   The C08_stl_unguarded_* examples show that dropping a guard makes a site reachable.  Boundary of the model, as for the
-   other writers (notes/C01.md): a nil *Item inside the cue list is dereferenced without a guard (C08_stl_unguarded_nil_item). *)
+   The C08_stl_unguarded_* examples show that dropping a guard makes a site reachable.  A nil *Item inside the cue list:
+   WriteToSTL filters the list through nonNilItems before anything looks at it (repo 4240852), the checked cue list goes
+   through Kit.Chk.somes (C08_stl_writer_total_nil_items, C08_stl_nil_items_skipped below); C08_stl_unguarded_nil_item is the
+   code before that filter. *)
 From Coq Require Import ZArith.
 From Astisub Require Import Kit.Chk Gen.StlTables Model.StlC Proofs.StlChk Model.StlCW Proofs.StlChk2.
 Theorem C08_stl_checked_reader_total : forall (ign : bool) (data : list N) (p : N), read_stl_c ign data <> Panic p.
@@ -227,7 +229,7 @@ Theorem C08_stl_checked_gsi_block : forall b, length b = 1024%nat -> parse_gsi_c
 Proof. exact parse_gsi_c_ok. Qed.
 Theorem C08_stl_checked_tti_block : forall (p : list N) (fps : Z), length p = 128%nat -> fps <> BinNums.Z0 -> parse_tti_c p fps = Ok (parse_tti p fps).
 Proof. exact parse_tti_c_ok. Qed.
-Theorem C08_stl_checked_cue_list : forall (l : list gitem) (p : N), items_c (map Some l) = Ok (map item_flat l) /\ items_c (map Some l) <> Panic p.
+Theorem C08_stl_checked_cue_list : forall (l : list (option gitem)) (p : N), items_c l = Ok (map item_flat (somes l)) /\ items_c l <> Panic p.
 Proof. intros l p. split; [apply items_c_ok | apply items_c_no_panic]. Qed.
 (* the tables the guards rely on, from the code of this run *)
 Theorem C08_stl_checked_tables :
@@ -244,8 +246,8 @@ Example C08_stl_unguarded_frame_rate : forall f, frames_ns_c f BinNums.Z0 = Pani
 Proof. exact frames_zero_rate_panics. Qed.
 Example C08_stl_unguarded_leading_mark : enc_step_unguarded [] 768 = Panic 1060 /\ enc_step_c [] 768 = Ok [193%N].
 Proof. split; [exact enc_unguarded_leading_mark_panics | exact enc_guarded_leading_mark]. Qed.
-Example C08_stl_unguarded_nil_item : items_c [None] = Panic 702.
-Proof. exact items_c_nil_item. Qed.
+Example C08_stl_unguarded_nil_item : items_unguarded_c [None] = Panic 702 /\ items_c [None] = Ok nil.
+Proof. exact items_unguarded_nil_item. Qed.
 Print Assumptions C08_stl_checked_reader_total.
 Print Assumptions C08_stl_checked_writer_total.
 Print Assumptions C08_stl_checked_reader_agrees.
@@ -254,6 +256,26 @@ Print Assumptions C08_stl_checked_gsi_block.
 Print Assumptions C08_stl_checked_tti_block.
 Print Assumptions C08_stl_checked_cue_list.
 Print Assumptions C08_stl_checked_tables.
+(* WriteToSTL on the Go-shaped cue list: []*Item with nil elements anywhere, Item.InlineStyle / STLJustification / STLPosition
+   and LineItem.InlineStyle / the three *bool possibly nil (Model/StlCW.v gitem; write_stl_items_c = the checked cue list,
+   then the checked writer of Model/StlC.v).  No panic site is reachable; the bytes are the writer model's on the flattened
+   list of the non-nil elements; a nil element anywhere changes nothing (stl.go 943: "s.Items = nonNilItems(s.Items)" before
+   the emptiness test, newGSIBlock - TNB, TNS, TCF from Items[0] - and the loop); a list of nil elements only is "nothing
+   to write".  The driver suite stlwritem runs write_stl_items_c on the harness's cue lists WITH their nil elements. *)
+Theorem C08_stl_writer_total_nil_items : forall now md (l : list (option gitem)) (p : N), write_stl_items_c now md l <> Panic p.
+Proof. exact write_stl_items_c_no_panic. Qed.
+Theorem C08_stl_nil_items_skipped : forall now md (l : list gitem) (a b : list (option gitem)),
+  write_stl_items_c now md (map Some l) = write_stl_c now md (map item_flat l) /\
+  write_stl_items_c now md (a ++ None :: b) = write_stl_items_c now md (a ++ b).
+Proof.
+  intros now md l a b. split; [|apply write_stl_items_c_nil_skipped].
+  rewrite write_stl_items_c_ok, somes_map_Some, write_stl_c_ok. reflexivity.
+Qed.
+Theorem C08_stl_only_nil_items : forall now md n, write_stl_items_c now md (repeat None n) = Err ENothingToWrite.
+Proof. intros now md n. rewrite write_stl_items_c_all_nil. reflexivity. Qed.
+Print Assumptions C08_stl_writer_total_nil_items.
+Print Assumptions C08_stl_nil_items_skipped.
+Print Assumptions C08_stl_only_nil_items.
 (* ---- TTML: checked transcriptions (Model/TtmlC.v) ----
    Every run-time panic site of ttml.go and of propagateTTMLAttributes (regexp sub-match indices and the slicing of
    the text by them, the Begin/End pointers of a paragraph, the stores into the style/region maps, the nil-able
